@@ -71,12 +71,14 @@ def m_c14_with_trailing_blank_or_comment(f, rec):
     parts = rec["case"].get("parts") or []
     if not any(p.lstrip().startswith("with!") or "\n    with!" in p for p in parts):
         return False
+    # the captured body is the reference body plus a tail of blank lines (blank for the tokenizer: spaces, tabs, form feeds) -
+    # the repository's own test asks for them; such a line can defeat the dedent, so compare after removing them.  A comment in
+    # the tail is NOT explained: since the capture repair a comment left of the block is not part of the body
     lines_a = va.split("\n")
-    # drop trailing blank / comment-only lines, then compare after dedent
-    while lines_a and (not lines_a[-1].strip() or lines_a[-1].strip().startswith("#")):
+    while lines_a and not lines_a[-1].strip():
         lines_a.pop()
     core = textwrap.dedent("\n".join(lines_a) + "\n")
-    return core == vb
+    return core == vb and va != vb
 
 
 def m_c09_lone_cr(f, rec):
